@@ -145,6 +145,48 @@ def queued_while_busy(ck, w, seed, mons):
     ck.nontrivial(('queued', busy, events, x, w % 2))
 
 
+def two_children(ck, w, seed, mons):
+    """One IKE_SA with two CHILD_SAs X and Y. Optionally a first round in which both ends rekey X at once (both are pushed back, X survives). Then one end
+    deletes or rekeys Y while the other end rekeys X: nothing collides, so the rekey of X is served (judged by the collision monitor) and both ends agree."""
+    x = 'AB'[w % 2]
+    y = 'B' if x == 'A' else 'A'
+    prelude = (w // 2) % 2
+    own_op = ['expire_hard', 'expire_soft'][(w // 4) % 2]
+    order = (w // 8) % 2
+    sc = walk.Scenario(seed + w, mons, dict(WALK_CONFS[(w // 16) % len(WALK_CONFS)]), n_children=2)
+    if not sc.ok:
+        ck.count('handshake_failed')
+        return
+    sim = sc.sim
+    sim.lossless_run = True
+    sim.case['family'] = ('two-children', x, prelude, own_op, order)
+
+    def expire(name, idx, hard):
+        ch = sc.shared_children(name)
+        if len(ch) <= idx:
+            return False
+        sa, c = ch[idx]
+        sim.case['actions'].append(('expire', name, idx, hard))
+        sim.expire(sc.ep(name), bytes(c.inbound_spi), hard, daddr=str(sa.my_addr), proto=50 if int(c.proposal.protocol_id) == 3 else 51)
+        return True
+    if prelude:
+        expire('A', 0, False)
+        expire('B', 0, False)
+        sc.settle()
+        ck.count('two_children.preludes')
+    if len(sc.shared_children(x)) < 2:
+        ck.count('two_children.less_than_two_children_after_the_prelude')
+        return
+    # x works on Y (the second CHILD_SA), y rekeys X (the first one); both requests leave before either is delivered
+    steps = [(x, 1, own_op == 'expire_hard'), (y, 0, False)]
+    for name, idx, hard in (steps if not order else steps[::-1]):
+        expire(name, idx, hard)
+    sc.settle()
+    monitors.quiescence_check(ck, sim, sc.a, sc.b, prefix='quiescence-two-children')
+    ck.count('two_children.runs')
+    ck.nontrivial(('two-children', x, prelude, own_op, order, (w // 16) % len(WALK_CONFS)))
+
+
 def run(ck):
     for w in range(60 if not ck.thorough() else 3000):
         if ck.mine(w):
@@ -155,6 +197,10 @@ def run(ck):
     for w in range(216 if not ck.thorough() else 6000):
         if ck.mine(w):
             queued_while_busy(ck, w, seedbase + 4242, mons)
+
+    for w in range(64 if not ck.thorough() else 16 * len(WALK_CONFS) * 20):
+        if ck.mine(w + 1):
+            two_children(ck, w, seedbase + 15090, mons)
 
     def leaf(sc, path):
         sc.settle()
@@ -205,6 +251,7 @@ def run(ck):
 
 
 def verdict(ck):
+    ck.floor('rekeys of one CHILD_SA that arrived while the receiver was deleting or rekeying ANOTHER CHILD_SA, and were served', ck.counters['col.rekey_child_while_busy_with_another_child.served'], 20)
     ck.floor('runs against a conformant but unusual peer that ended consistent', ck.counters['unusual_peer.consistent'], 45)
     ck.floor('histories with several local events queued while an exchange was in flight', ck.counters['queued_while_busy.runs'], 150)
     ck.floor('interleavings', ck.counters['interleavings'], 1200 if not ck.thorough() else 5000)
